@@ -302,6 +302,36 @@ theorem written_figures_are_of_fresh_model {D : Data} (hI : InitConsistent D) (h
   unfold detailRows
   rw [hs]
 
+/-! ## The rounding primitive (`pkg/math.RoundFloat`, tied directly by the suite `round-ops`)
+
+What the four direct clauses of `round-ops` check on the Go function are theorems about `rnd`, the definition that suite
+compares it with line by line — so the model's rounding is characterised completely: the nearest point of the 10⁻ᵖ grid,
+the one away from zero when two are nearest. -/
+
+/-- rounding commutes with negation: what an action added when switched on is what it takes back when switched off -/
+theorem round_mirror (p : Nat) (x : Rat) : rnd p (-x) = -rnd p x := rnd_neg p x
+
+/-- a figure on the grid stays where it is -/
+theorem round_idempotent (p : Nat) (x : Rat) : rnd p (rnd p x) = rnd p x := rnd_rnd p x
+
+/-- every rounded figure is a whole number of grid units -/
+theorem round_on_grid (p : Nat) (x : Rat) : OnGrid p (rnd p x) := rnd_onGrid p x
+
+/-- never further than half a grid unit from the value -/
+theorem round_nearest (p : Nat) (x : Rat) :
+    -(1/2) ≤ (rnd p x - x) * (10^p : Nat) ∧ (rnd p x - x) * (10^p : Nat) ≤ 1/2 := rnd_nearest p x
+
+/-- exact ties go AWAY from zero, on both sides of it -/
+theorem round_ties_away (p : Nat) (k : Nat) :
+    rnd p ((((k : Int) : Rat) + 1/2) / (10^p : Nat)) = (((k : Int) + 1 : Int) : Rat) / (10^p : Nat) ∧
+    rnd p (-((((k : Int) : Rat) + 1/2) / (10^p : Nat))) = -((((k : Int) + 1 : Int) : Rat) / (10^p : Nat)) :=
+  rnd_tie_away p k
+
+/-- the changed tie rule of the seeded changes C01k / C05k / C12k / C14k (`⌊x·10ᵖ + ½⌋`, "half up") is NOT this function:
+it sends −0.125 to −0.12 where `rnd` gives −0.13, and so is not odd -/
+example : rnd 2 (-(1 : Rat) / 8) = -(13 : Rat) / 100 ∧
+    (((-(1 : Rat) / 8 * 100 + 1/2).floor : Int) : Rat) / 100 = -(12 : Rat) / 100 := by decide +kernel
+
 /-! Non-vacuity / sanity (tests, labelled as such) on the C01 dataset: a state after a misuse history, the map
 yielding the units backwards; a unit whose share is zero is dropped from the list and still read as 0. -/
 
